@@ -409,7 +409,8 @@ func properties() map[string]*PropertyDef {
 		ID:       "C20",
 		Patterns: []string{"./netutil/httputil"},
 		Funcs: []string{"netutil/httputil.Wrap", "netutil/httputil.(*CodeRecorderResponseWriter).WriteHeader", "netutil/httputil.(*CodeRecorderResponseWriter).Write",
-			"netutil/httputil.(*CodeRecorderResponseWriter).SetImplicitSuccess", "netutil/httputil.(*CodeRecorderResponseWriter).Reset", "netutil/httputil.(*CodeRecorderResponseWriter).Code"},
+			"netutil/httputil.(*CodeRecorderResponseWriter).SetImplicitSuccess", "netutil/httputil.(*CodeRecorderResponseWriter).Reset", "netutil/httputil.(*CodeRecorderResponseWriter).Code",
+			"netutil/httputil.CopyRequestTo", "netutil/httputil.(*LogMiddleware).logFinished", "netutil/httputil.(*LogMiddleware).Wrap$1"},
 		Kinds: map[string]bool{"ensures": true, "invariant": true, "requires": true, "frame": true, "nil": true, "bounds": true, "variant": true},
 		NeedsClauses: map[string][]string{
 			"netutil/httputil.Wrap": {"one_call_each", "nested_in_order", "outermost_returned", "count", "nested", "current"},
@@ -417,29 +418,34 @@ func properties() map[string]*PropertyDef {
 			"netutil/httputil.(*CodeRecorderResponseWriter).Write":              {"forwarded"},
 			"netutil/httputil.(*CodeRecorderResponseWriter).SetImplicitSuccess": {"implicit_200"},
 			"netutil/httputil.(*CodeRecorderResponseWriter).Reset":              {"reset"},
+			"netutil/httputil.CopyRequestTo":                                    {"same_request"},
+			"netutil/httputil.(*LogMiddleware).Wrap$1":                          {"handler_once", "own_writer", "own_request", "finished_logged_once", "finished_before_recycling", "three_objects_returned"},
 		},
 		Assumptions: []string{
-			"PARTIAL CLAIM. Decided (sequential, for all inputs): Wrap applies the middlewares last to first, each exactly once and each to the result of the previous application, and returns the outermost result, so that a request enters m1 first and reaches h last provided each middleware's handler calls the handler it wrapped; the status-code recorder records exactly the code passed to WriteHeader, forwards WriteHeader and Write unchanged to the wrapped writer, reports 200 when no code was set and is cleared by Reset",
-			"NOT decided - outside what contracts on sequential code can express or reach: per-request isolation of LogMiddleware under concurrent requests (objects recycled through sync.Pool, interleavings), and the request/logger plumbing of its handler (net/http.Request copying, log/slog handler internals, generic sync.Pool wrappers would all have to be specified first); that the 'finished' record carries the recorded code is by the deferred-call order of the handler closure, not an obligation",
+			"PARTIAL CLAIM. Decided (sequential, for all inputs): Wrap applies the middlewares last to first, each exactly once and each to the result of the previous application, and returns the outermost result, so that a request enters m1 first and reaches h last provided each middleware's handler calls the handler it wrapped; the status-code recorder records exactly the code passed to WriteHeader, forwards WriteHeader and Write unchanged to the wrapped writer, reports 200 when no code was set and is cleared by Reset; LogMiddleware's handler closure, one request at a time: the wrapped handler runs exactly once, on the pooled recorder reset to this request's writer and on a copy of this request that agrees with it in method, URL, host, headers, body, remote address and request URI; the 'finished' record is written for that recorder while it still belongs to the request - the last four logged steps are logFinished followed by the three Pool.Put calls; two objects are taken from and three returned to the pools; nothing but pooled objects is written",
+			"NOT decided - outside what contracts on sequential code can express: per-request isolation under concurrent requests (what another goroutine does with a pooled object between Get and Put; interleavings); the logger attributes carried by the context (slog handler internals); that the client receives what the invocation wrote (the recorder forwards, net/http does the rest)",
+			"assumed (trusted contracts): syncutil.Pool.Get returns some non-nil object of the pool's type, attrsSlicePtr returns a non-nil pointer to a slice with room for the four attributes; http.Request.WithContext makes a shallow copy",
 			"assumed: interface methods (Middleware.Wrap, ResponseWriter.*) do not modify the recorder's fields",
 		},
 		Explanation: "ghost event log over the real Wrap loop; per-method postconditions with frame conditions on the recorder",
-		LevelText:   "proof (partial): middleware nesting order and the status-code recorder for all inputs; concurrency and the LogMiddleware handler not decided",
+		LevelText:   "proof (partial): middleware nesting order, the status-code recorder and the per-request step order of the LogMiddleware handler for all inputs; isolation under concurrency not decided",
 		LevelNote:   "see assumptions; trusted: go/ssa lowering, govc encoding, solvers",
 		Technique:   "contract-based deductive verification (govc): ghost event log, loop invariants, frame conditions, WP over go/ssa, z3/cvc5",
 	})
 	ps = append(ps, &PropertyDef{
 		ID:       "C19",
 		Patterns: []string{"./logutil/slogutil"},
-		Funcs:    []string{"logutil/slogutil.(*JSONHybridHandler).Enabled", "logutil/slogutil.newJSONHybridMessage", "logutil/slogutil.(*JSONHybridHandler).WithAttrs"},
+		Funcs:    []string{"logutil/slogutil.(*JSONHybridHandler).Enabled", "logutil/slogutil.newJSONHybridMessage", "logutil/slogutil.(*JSONHybridHandler).WithAttrs", "logutil/slogutil.newBufferedTextHandler", "logutil/slogutil.(*bufferedTextHandler).reset"},
 		Kinds:    map[string]bool{"ensures": true, "requires": true, "frame": true, "nil": true, "bounds": true},
 		NeedsClauses: map[string][]string{
 			"logutil/slogutil.(*JSONHybridHandler).Enabled":   {"at_least_configured"},
 			"logutil/slogutil.newJSONHybridMessage":           {"severity", "message_kept"},
 			"logutil/slogutil.(*JSONHybridHandler).WithAttrs": {"derived", "attrs_appended", "parent_unchanged", "frame/"},
+			"logutil/slogutil.newBufferedTextHandler":         {"pair_linked"},
+			"logutil/slogutil.(*bufferedTextHandler).reset":   {"same_pair"},
 		},
 		Assumptions: []string{
-			"PARTIAL CLAIM. Decided (sequential, all inputs): Enabled(l) holds iff l is at least the configured level; the emitted object's severity is ERROR exactly for levels >= slog.LevelError and NORMAL otherwise and the message bytes are passed on unchanged; WithAttrs returns a new handler that shares level, encoder, pool and mutex, carries len(parent attrs)+len(new attrs) attributes and writes to no memory that existed before the call - in particular not to the parent's attribute array, so attributes of one derived handler cannot show up in a sibling",
+			"PARTIAL CLAIM. Decided (sequential, all inputs): Enabled(l) holds iff l is at least the configured level; the emitted object's severity is ERROR exactly for levels >= slog.LevelError and NORMAL otherwise and the message bytes are passed on unchanged; WithAttrs returns a new handler that shares level, encoder, pool and mutex, carries len(parent attrs)+len(new attrs) attributes and writes to no memory that existed before the call - in particular not to the parent's attribute array, so attributes of one derived handler cannot show up in a sibling; the pooled (buffer, text handler) pair that Handle uses stays linked: the handler made by the constructor writes into that very buffer, and reset keeps both objects and only empties the buffer",
 			"NOT decided: Handle itself (one line per record, message == the slog.TextHandler line with the accumulated attributes, newline stripped) - slog.Record is an opaque library value to the generator and the step order would have to be stated over assumed contracts of log/slog, bytes.Buffer, encoding/json and sync.Pool; that lines of concurrent records never interleave (mutex around Encode; interleavings are outside contracts on sequential code); the JSON encoder's output format",
 		},
 		Explanation: "per-function postconditions; the frame condition 'modifies nothing' on WithAttrs is what excludes the append-into-shared-capacity bug",
